@@ -72,6 +72,10 @@ def run(tier, seed):
             for b0 in range(256):
                 for b1 in (0x00, 0x80):
                     plans.append({"id": "mcs0-%s-%d-%d" % (r["stage"], b0, b1), "stage": r["stage"], "layer": "mcs", "faults": [{"op": "set8", "off": 0, "v": b0}, {"op": "set8", "off": 1, "v": b1}], "uid": 1004})
+        for st in ("licence", "licence_new"):
+            for b0 in range(256):
+                for b1 in (0x00, 0x80):
+                    plans.append({"id": "mcs0-%s-%d-%d" % (st, b0, b1), "stage": st, "layer": "frame", "faults": [{"op": "set8", "off": 7, "v": b0}, {"op": "set8", "off": 8, "v": b1}], "uid": 1004})
         # nesting as deep as a frame can hold: indefinite-length constructed elements (2 bytes a level) and definite ones
         # (4 bytes a level) in place of the connect response - the reader's recursion has to be bounded by depth, not by input
         def nest_def(levels):
